@@ -327,7 +327,7 @@ def run(chk, R, tier, seed):
     chk.require("results in money (own quantum per currency)")
     nm = 16 if tier == "quick" else 400
     run_cases(chk, R, [money_world_case(chk, rng, i) for i in range(nm)])
-    nw = 48 if tier == "quick" else 1500
+    nw = 120 if tier == "quick" else 1500
     done = 0
     while done < nw:
         n = min(nw - done, 480)
